@@ -22,6 +22,7 @@ Paths == {
   "listeners.2.name", "listeners.2.auth", "listeners.2.auth.required", "listeners.2.auth.users", "listeners.2.auth.users.0.username", "listeners.2.auth.cmd",
   "listeners.2.auth.cache", "listeners.2.auth.cache.timeout", "listeners.2.allowUdp", "listeners.2.overrideUdpAddress",
   "listeners.3.target", "listeners.3.protocol", "listeners.4.tls", "listeners.4.bbr", "listeners.4.bind",
+  "listeners.5.type", "listeners.5.protocol", "listeners.5.maxUdpSocket", "listeners.5.udpFullCone",
   "connectors.0", "connectors.0.name", "connectors.0.bind", "connectors.0.dns", "connectors.0.dns.servers", "connectors.0.dns.family", "connectors.0.fwmark", "connectors.0.keepalive",
   "connectors.1.server", "connectors.1.port", "connectors.1.tls", "connectors.1.tls.insecure", "connectors.1.tls.ca", "connectors.1.tls.auth", "connectors.1.tls.auth.cert", "connectors.1.tls.auth.key", "listeners.4.tls.key",
   "connectors.2.version", "connectors.2.auth", "connectors.2.auth.username",
@@ -41,7 +42,7 @@ StartupApplies(p, x) ==
    CASE x \in {"no_slash", "wildcard"} -> p = "metrics.apiPrefix"
      [] x = "bad_header" -> p = "metrics.cors"
      [] x = "unbindable" -> p \in {"metrics.bind", "listeners.0.bind", "listeners.4.bind"}
-     [] x = "u64max" -> p \in {"listeners.2.auth.cache.timeout", "timeouts.idle", "timeouts.udp", "metrics.historySize", "ioParams.bufferSize"}   \* the largest number the field's type takes
+     [] x = "u64max" -> p \in {"listeners.2.auth.cache.timeout", "listeners.5.maxUdpSocket", "timeouts.idle", "timeouts.udp", "metrics.historySize", "ioParams.bufferSize"}   \* the largest number the field's type takes
      [] x = "wrong_pem" -> p \in {"listeners.1.tls.cert", "listeners.1.tls.key", "listeners.1.tls.client.ca", "connectors.1.tls.ca", "connectors.1.tls.auth.cert", "connectors.1.tls.auth.key", "listeners.4.tls.key"}
 Rows == {<<p, o, x>> \in Paths \X (DOMAIN Ops) \X {"-", "string", "int", "negint", "bool", "list", "map", "null", "float", "empty", "unknown_type", "deny",
                                                   "huge", "bad_addr", "bad_port", "bad_path", "bad_script", "nonbool_script", "unknown_ref", "self_ref", "dup_name", "nul",
